@@ -54,7 +54,18 @@ def make_weighting(spec):
         return scoring.ReverseWeighting(scoring.BM25F())
     if k == "function":
         return scoring.FunctionWeighting(_posfn)
+    if k == "bm25f_final":
+        # a final() hook that depends on the document itself: score + FINAL_ADJ * (stored uid)
+        class FinalBM25F(scoring.BM25F):
+            use_final = True
+
+            def final(self, searcher, docnum, score):
+                return score + FINAL_ADJ * searcher.stored_fields(docnum)["u"]
+        return FinalBM25F()
     raise HarnessError(spec)
+
+
+FINAL_ADJ = 0.015625
 
 
 def _posfn(searcher, fieldname, text, matcher):
